@@ -334,7 +334,7 @@ func (f *F) Ev(kind, what string) Sel {
 	// plus the single-use private helpers it calls (a helper with exactly one call site is
 	// part of its caller; its events are rendered in f's terms) ...
 	for _, e := range f.deepEvs() {
-		if e.Kind == kind && matchStr(e.What, what) && f.q.p.singleUse(e.In.Parent()) {
+		if e.Kind == kind && matchStr(e.What, what) && f.q.p.inlinable(e.In.Parent()) {
 			out = append(out, e)
 		}
 	}
@@ -1113,11 +1113,47 @@ func (f *F) EachInstrDeep(visit func(in ssa.Instruction)) {
 func (f *F) All() []*Ev {
 	out := append([]*Ev{}, f.evs...)
 	for _, e := range f.deepEvs() {
-		if f.q.p.singleUse(e.In.Parent()) {
+		if f.q.p.inlinable(e.In.Parent()) {
 			out = append(out, e)
 		}
 	}
 	return out
+}
+
+// inlinable: a private helper whose events are read as part of its callers: it has a single
+// call site, or it is a small leaf (no calls into the module, no goroutines, at most 60
+// instructions) — the shape of a block of code factored out for reuse.
+func (p *Prog) inlinable(fn *ssa.Function) bool {
+	if p.singleUse(fn) {
+		return true
+	}
+	if p.leaf == nil {
+		p.leaf = map[*ssa.Function]bool{}
+	}
+	if v, ok := p.leaf[fn]; ok {
+		return v
+	}
+	ok := fn.Parent() == nil && lowerName(fn.Name()) && p.moduleFunc(fn) && fn.Blocks != nil
+	n := 0
+	if ok {
+		EachInstr(fn, func(in ssa.Instruction) {
+			n++
+			if _, isGo := in.(*ssa.Go); isGo {
+				ok = false
+			}
+			if c := CallOf(in); c != nil {
+				if sc := c.StaticCallee(); sc != nil && p.moduleFunc(sc) && msgMethod(c) == "" {
+					ok = false
+				}
+				if _, isMC := c.Value.(*ssa.MakeClosure); isMC {
+					ok = false
+				}
+			}
+		})
+	}
+	ok = ok && n <= 60
+	p.leaf[fn] = ok
+	return ok
 }
 
 // ReturnDesc: v described through one level of private constructor-like helper: when v is
